@@ -1,4 +1,6 @@
 import CgtModel.Report
+import CgtModel.Lemmas.Usage
+import CgtModel.Lemmas.Sorted
 import CgtModel.Lemmas.WellFormed
 import CgtModel.Lemmas.Conserve
 /-! # C02 — shares are conserved
@@ -183,4 +185,47 @@ def exLedger : List Tx :=
   [ ⟨⟨2024, 1, 1⟩, "A", .buy 100 2 5⟩, ⟨⟨2024, 2, 1⟩, "A", .sell 40 3 1⟩, ⟨⟨2024, 2, 1⟩, "A", .buy 10 (5/2) 0⟩,
     ⟨⟨2024, 2, 10⟩, "A", .split 2⟩, ⟨⟨2024, 2, 20⟩, "A", .buy 30 1 2⟩, ⟨⟨2024, 3, 1⟩, "B", .buy 1 1 0⟩ ]
 example : WellFormed exLedger := by decide +kernel
+end Cgt.C02
+
+namespace Cgt.C02
+
+theorem factorBetween_setOffsets (f : Day → Rat) (a b : Int) : ∀ ds, factorBetween a b (setOffsets f ds) = factorBetween a b ds
+  | [] => rfl
+  | d :: ds => by
+    simp only [setOffsets, List.map_cons, factorBetween] at *
+    rw [show (List.map (fun d => { d with offset := f d }) ds) = setOffsets f ds from rfl, factorBetween_setOffsets f a b ds]
+    rfl
+
+theorem bbUse_setOffsets (f : Day → Rat) (ds : List Day) (e : Day) (legs : List Leg) :
+    bbUse (setOffsets f ds) e legs = bbUse ds e legs := by
+  unfold bbUse
+  congr 1
+  apply List.map_congr_left
+  intro x _
+  rw [factorBetween_setOffsets]
+
+/-- **C02 (b) in full, from the raw ledger**: for every validator-clean ledger the matcher accepts,
+    every security and every day with a purchase: that day's Same-Day legs plus all 30-day legs of
+    earlier disposals identified with it — each rescaled by the split factors between the disposal
+    and the purchase — use no more than the quantity purchased -/
+theorem C02_no_acquisition_overused (w : Int) (l : List Tx) (hwf : WellFormed l) (rs : List TickerResult)
+    (h : run w l = .ok rs) :
+    ∀ r ∈ rs, ∀ e ∈ daysOf r.ticker (preprocess l),
+      sdUse e r.legs + bbUse (daysOf r.ticker (preprocess l)) e r.legs ≤ e.B := by
+  intro r hr e he
+  have hrun := run_result w l rs h r hr
+  unfold runTicker at hrun
+  split at hrun
+  · cases hrun
+  · rename_i ds' hw
+    obtain ⟨f, rfl⟩ := withOffsets_shape r.ticker _ ds' hw
+    have hs : (setOffsets f (daysOf r.ticker (preprocess l))).Pairwise (fun a b => a.ord < b.ord) := by
+      unfold setOffsets; rw [List.pairwise_map]; exact daysOf_strict l r.ticker
+    have hok := daysOk_setOffsets f _ (wellFormed_days l hwf r.ticker).1
+    have hmem : ({ e with offset := f e } : Day) ∈ setOffsets f (daysOf r.ticker (preprocess l)) := by
+      unfold setOffsets; exact List.mem_map_of_mem he
+    have := no_acquisition_overused r.ticker w _ hs hok r.pool r.legs hrun _ hmem
+    rw [bbUse_setOffsets] at this
+    exact this
+
 end Cgt.C02
